@@ -199,9 +199,11 @@ func c18MapOrder(w *mc.Worker) {
 				}
 			})
 		})
-		if !w.IsReplay() && w.Rep.OuterCases > 0 && !sawPoint {
+		if !w.IsReplay() && !verifrt.Instrumented {
 			w.Count("harness_errors", 1)
-			w.Rep.Notes = append(w.Rep.Notes, "map-order stage saw no instrumented range point: the build is not instrumented")
+			w.Rep.Notes = append(w.Rep.Notes, "map-order stage: the build is not instrumented")
+		} else if !w.IsReplay() && w.Rep.OuterCases > 0 && !sawPoint && w.Rank == 0 {
+			w.Rep.Notes = append(w.Rep.Notes, fmt.Sprintf("map-order stage: no map iteration with >= 2 keys was reached (%d rewritten sites in the instrumented tree): nothing to permute", verifrt.MapRangeSites))
 		}
 	})
 }
